@@ -38,6 +38,27 @@ check('C16', 'proof',
       'Lean 4 proof (induction over the tokenizer loop / trie paths) + model-vs-implementation correspondence',
       'DESIGN.md §3 C16')
 
+check('C18', 'translation_validation',
+      'Exhaustive on every run: the repository\'s own resource generator is re-run on Patterns/*.yaml for every entry of the '
+      'five resource-definitions.json and compared with the checked-in module definition by definition (source text and '
+      'evaluated attribute values); a finite artefact equality is decided by comparison, not by a theorem. Lean proves, for '
+      'ALL strings, that what the emitter writes evaluates back to the YAML definition (sanitize_fstring_roundtrip: '
+      'f\'…\' of sanitize(d) = d; create_entry_roundtrip: "…" of create_entry(e) = e unless e holds a raw newline), and that '
+      'model is tied to lib/code_writer.py by unit correspondence.',
+      TB + 'ruamel.yaml replaced by a shim over vendored PyYAML with YAML-1.2 resolvers; the generator under test is the repo\'s own.',
+      'translation validation (exhaustive regeneration diff) + Lean 4 proofs about the emitter\'s escaping functions',
+      'DESIGN.md §3 C18')
+
+check('C19', 'other',
+      'Exhaustive replay of the Python-supported Specs corpus (14,914 cases: model / extractor / parser / merged-parser '
+      'levels) through the repository\'s own runner against the working tree on every run; each failing case is reported as a '
+      'concrete failing input. Not a proof: the subject is the whole un-modelled implementation on a literal corpus; the '
+      'Lean models take part through the other properties\' correspondence runs, which start from the same corpus.',
+      'Trusted: the repository\'s test runner (Python/tests), pytest, the datedelta/grapheme shims. The pinned 204-test suite '
+      'never touches /repo\'s recogniser code (it imports site-packages); this check sets PYTHONPATH to the working tree.',
+      'exhaustive differential replay of the Specs corpus (no theorem can apply; see DESIGN.md §5)',
+      'DESIGN.md §3 C19')
+
 ALL_IDS = ['C%02d' % i for i in range(1, 21)]
 PENDING = 'check not built yet in this revision (work in progress; see DESIGN.md §8 build order)'
 
